@@ -4,6 +4,7 @@ package main
 
 import (
 	"fmt"
+	"time"
 
 	"github.com/hedzr/logg/slog"
 )
@@ -89,7 +90,10 @@ func c11One(r *Run, snap *slog.VerifRegistry, ops []Op, kind string) {
 		events = nil
 		e.SetWriter(pool[1])
 		e.SetErrorWriter(pool[1])
-		e.Print("probe\nwith a second line") // (several lines: a coloured record leaves its continuation lines in the context)
+		// (several lines: a coloured record leaves its continuation lines in the context; values of several kinds:
+		// whatever a format does to mark a value up belongs to that format only)
+		e.Print("probe\nwith a second line", "err", fmt.Errorf("boom %d", i), "n", i, "s", "text with blanks", "b", true,
+			slog.Group("g", slog.String("k", "v"), slog.NewAttr("inner", fmt.Errorf("inner error"))), "d", time.Duration(1500)*time.Millisecond)
 		sh := "?"
 		if len(events) > 0 {
 			sh = shapeOf(events[len(events)-1].Payload)
@@ -183,6 +187,21 @@ func runC11(r *Run) {
 					x.P, y.P, z.P = a%3, (a+b)%3, (b+c)%3
 					c11One(r, snap, append(append([]Op{}, base...), x, y, z), "exhaustive3")
 				}
+			}
+		}
+	}
+	// the child WithSkip(n) hands out is one logger per n: asked for again - after its own format was set, after the
+	// parent's format changed - it is the same logger in the format it was left in
+	for pi := 0; pi < 3; pi++ {
+		for i := range variants {
+			for j := range variants {
+				if (i+j+pi)%3 != 0 && !r.Thorough() {
+					continue
+				}
+				v, w := variants[i], variants[j]
+				ops := append(append([]Op{}, base...), Op{Kind: "OWithSkip", P: pi, N: 1}, Op{Kind: "OSet", P: 3, S: &v},
+					Op{Kind: "OWithSkip", P: pi, N: 1}, Op{Kind: "OSet", P: pi, S: &w}, Op{Kind: "OWithSkip", P: pi, N: 1}, Op{Kind: "OWithSkip", P: pi, N: 2})
+				c11One(r, snap, ops, "withskip-again")
 			}
 		}
 	}
